@@ -401,8 +401,18 @@ func verifSplitLines(s string) []string {
 	return append(out, cur)
 }
 
+// a blank line is empty or holds only ASCII white space
+func verifIsBlank(l string) bool {
+	ok := true
+	for i := 0; i < len(l); i++ {
+		ch := l[i]
+		ok = verifAll(ok, verifAny(ch == ' ', ch == '\t', ch == '\f', ch == '\v', ch == '\r'))
+	}
+	return ok
+}
+
 func verifTrimTrailingBlank(lines []string) []string {
-	for len(lines) > 0 && lines[len(lines)-1] == "" {
+	for len(lines) > 0 && verifIsBlank(lines[len(lines)-1]) {
 		lines = lines[:len(lines)-1]
 	}
 	return lines
